@@ -16,7 +16,7 @@ echo "-- demo on unmodified tree (expect 0)"
 ( cd $DIR/demo && timeout 600 bash ./run.sh $WT ) > $DIR/demo_clean.out 2>&1; RC0=$?
 tail -3 $DIR/demo_clean.out; echo "rc=$RC0"
 echo "-- apply patch"
-git -C $WT apply $DIR/patch.diff; echo "apply rc=$?"
+git -C $WT apply $DIR/patch.diff 2>/dev/null || $(dirname $0)/apply_patch.sh $WT $DIR/patch.diff; echo "apply rc=$?"
 echo "-- demo on patched tree (expect non-zero)"
 ( cd $DIR/demo && timeout 600 bash ./run.sh $WT ) > $DIR/demo_patched.out 2>&1; RC1=$?
 tail -3 $DIR/demo_patched.out; echo "rc=$RC1"
